@@ -232,6 +232,9 @@ def _check_call(qualname, contract, args, raises):
     req = contract.get("requires")
     if req and not specrt.eval_clause(req, env):
         return {"ok": True, "skipped": "precondition false"}
+    req_rt = contract.get("requires_rt")        # a precondition on the SHAPE of a text, stated for the run-time checks only
+    if req_rt and not specrt.eval_clause(req_rt, env):
+        return {"ok": True, "skipped": "precondition false"}
     try:
         import copy
         result = call_real(qualname, {k: (copy.deepcopy(v) if isinstance(v, (list, set)) else v) for k, v in args.items()})
@@ -353,6 +356,9 @@ def pool_for(kind):
                                                                                       ("None", None), ("object()", specrt.Witness())]
     if kind == "newobj":
         return [("<new instance>", NEW)]
+    if kind == "bracket":
+        return [(repr(t), t) for t in [".", "[a-z]", "[abc]", "[^a-z0-9]", "[a-zA-Z0-9_]", "[\\-\\]x]", "[b-df]", "[0-9a-fA-F]", "[^\\n]", "[xyz0-2]",
+                                         "[!-\\/:-@\\[-`{-~]"]]
     if kind == "absranges":
         opts = [set(), {"a-z"}, {"a-c", "x-z"}, {"0-9", "A-F"}, {"!-\\/"}, {"\\[-\\]", "a-b"}, {"b-d", "k-m", "0-3"}]
         return [(repr(sorted(o)), o) for o in opts]
@@ -410,6 +416,29 @@ def pool_for(kind):
                     out.append(lv)
         return out
     raise ValueError(kind)
+
+
+def classarg_shapes():
+    """the bracket text every zero-argument class of pregex.core.classes hands to __Class.__init__ (ghost CLASSARG): all must have
+    the shape __process presupposes (CLASS_TEXT_WF)"""
+    import inspect
+    import pregex.core.classes as cl
+    install_ghosts()
+    out, bad = 0, []
+    for name, k in vars(cl).items():
+        if not (isinstance(k, type) and issubclass(k, getattr(cl, "__Class")) and not name.startswith("_")):
+            continue
+        sig = inspect.signature(k.__init__)
+        req = [p for p in list(sig.parameters.values())[1:] if p.default is inspect._empty and p.kind in (p.POSITIONAL_ONLY, p.POSITIONAL_OR_KEYWORD)]
+        if req or any(p.kind == p.VAR_POSITIONAL for p in sig.parameters.values()):
+            continue
+        variants = [k()] + ([k(is_global=True)] if "is_global" in sig.parameters else [])
+        for o in variants:
+            out += 1
+            t = getattr(o, "_ghost_classarg", None)
+            if t is None or not specrt.CLASS_TEXT_WF(t):
+                bad.append({"class": name, "text": t})
+    return {"classes": out, "bad": bad}
 
 
 def chain_pairs(qualname, limit=400, seed=0):
